@@ -12,7 +12,7 @@ UV_EOF, UV_ENOBUFS = -4095, -105
 # keys of the two defects repaired by /repo commit 34f0ffa (kept only to name a regression)
 FIXED_IPC = "ipc_premature_eof_after_fd_message"
 FIXED_NONIPC = "pipe_premature_eof_after_fd_message_nonipc"
-HARNESS_ONLY = "WGHQUKMBVYOD"
+HARNESS_ONLY = "WGHQUKMBVYODZEN"
 
 
 # --------------------------------------------------------------------------
@@ -92,6 +92,25 @@ def gen_case(rng, tcp=False):
         return "R=0"
 
     n = rng.randint(4, 22)
+    if rng.random() < 0.10:
+        # our own writes fail (scripted EPIPE/ECONNRESET, or really: the peer did shutdown(SHUT_RD)) while
+        # the read direction is healthy: the peer keeps sending, then closes; everything must arrive, then
+        # UV_EOF, within the drain
+        ops.append("w%d" % wsize())
+        ops += ["R"] * rng.randint(0, 2)
+        for _ in range(rng.randint(1, 3)):
+            if rng.random() < 0.4 and not tcp:
+                ops += ["d", "X0"]
+            else:
+                ops.append("X%d" % rng.choice([32, 32, 104, 5, 0]))
+            ops += [rng.choice(["R", "w%d" % wsize(), "R"]) for _ in range(rng.randint(0, 3))]
+        ops.append("w%d" % wsize())
+        ops.append(rng.choice(["q", "q", "h", "R"]))
+        ops += ["R"] * rng.randint(0, 2) + ["Z"]
+        for _ in range(rng.choice([0, 0, 6])):
+            behs.append(rng.choice(["", "", "", "T S2"]))
+        return "%d ; %s ; %s ; %s ; %s" % (ipc, " ".join(ops), " | ".join(behs),
+                                           " ".join(str(a) for a in allocs), "")
     if ipc and rng.random() < 0.25:
         # real kernel answers only: exact-fit buffers (1, 2, 4, 8), data-only messages in front of
         # descriptor-carrying ones, everything sent before the loop runs: several recvmsg per pass
@@ -164,11 +183,15 @@ def gen_case(rng, tcp=False):
                 ops.append("T")
             elif r < 0.95:
                 ops.append("S%d" % rng.choice([1, 2, 3]))
-            elif r < 0.975:
+            elif r < 0.965:
                 ops.append("V")
+            elif r < 0.98:
+                ops.append("X%d" % rng.choice([32, 104, 0]))
             else:
                 ops.append("C")
     ops += ["R"] * rng.choice([1, 2, 3, 5])
+    if rng.random() < 0.6:
+        ops.append("Z")
     # callback behaviours
     nb = rng.choice([0, 0, 3, 8, 40, 70])
     for _ in range(nb):
@@ -248,6 +271,11 @@ FIXED = [
     "1 ; S1 w4 g4 w4 g2 g4 R R R ; ; 4 ; ",
     "1 ; S1 w1 g1 w1 g1 g1 R R ; ; 1 ; ",
     "1 ; S1 w2 w2 g2 g2 q R R R ; ; 2 ; ",
+    # a write of ours fails while the read direction is healthy: nothing may be lost, EOF must come
+    "0 ; S1 w5 R X32 w5 R w5 q Z ; ; 64 ; ",
+    "0 ; S1 w5 X104 w7 h Z ; ; 3 ; ",
+    "0 ; S1 w5 R d X0 R w5 q Z ; ; 64 ; ",
+    "1 ; S1 g2 X32 w5 q Z ; ; 2 ; ",
     # 64 KiB buffers and more than one buffer of data
     "0 ; S1 w70000 w70000 q R R R R R ; ; 65536 ; ",
     "1 ; S1 w70000 g3 w70000 q R R R R R R ; ; 65536 ; ",
@@ -295,7 +323,7 @@ def monitor(case, line, ipc, tcp=False):
     pend_m = pend_k = False
     last_k = None
     fd_msgs = []
-    inbox = reset = peer_closed = False
+    inbox = reset = peer_closed = peer_shut = False
     eof_ctx = None
     for ev in trace:
         k, a = ev[0], ev[1:]
@@ -317,7 +345,7 @@ def monitor(case, line, ipc, tcp=False):
                 return (None, "uv_pipe_pending_count() is %d, but %d descriptor-carrying message(s) have been "
                               "read (descriptors lost or duplicated)" % (int(a), exp))
         elif k == "H":
-            pass
+            peer_shut = True
         elif k in "UV":
             # tcp: data sent towards a peer that closes without reading it (before or after) resets
             # the connection, and the reset discards what the peer had not yet transmitted, so "what
@@ -327,8 +355,25 @@ def monitor(case, line, ipc, tcp=False):
         elif k == "Q":
             peer_closed = True
             reset = tcp and inbox
-        elif k == "Y" or k == "O":
+        elif k in "YOZ":
             pass
+        elif k == "N":
+            if int(a) == 0:
+                inbox = True
+                reset = tcp and peer_closed
+        elif k == "E":
+            # end of a drain (no script, no overrides): E<bytes still readable>,<ended idle>
+            left, idle = [int(x) for x in a.split(",")]
+            if idle and not quiet and not closing:
+                if left > 0 or peer_closed or peer_shut:
+                    what = []
+                    if left > 0:
+                        what.append("%d byte(s)" % left)
+                    if peer_closed or peer_shut:
+                        what.append("UV_EOF")
+                    return (None, "reading handle never received %s although the peer wrote%s: uv_read_start "
+                                  "is in force, nothing was reported, yet the loop runs idle"
+                                  % (" / ".join(what), " and closed" if (peer_closed or peer_shut) else ""))
         elif k == "B":
             # n bytes were still readable when the UV_EOF callback just before ran
             if eof_ctx is not None:
@@ -447,15 +492,25 @@ def model_input(case, impl_line, tcp):
     wouts = [t[1:] for t in toks if t[0] == "O"]
     if len(wouts) != len(polls):
         return None
-    ops, pi = [], 0
+    drains = [int(t[1:]) for t in toks if t[0] == "Z"]
+    ops, pi, zi = [], 0, 0
     for t in c[1].split():
         if t[0] in "STC":
             ops.append(t)
-        elif t[0] == "R":
-            if pi >= len(polls):
-                return None
-            ops.append("R%s,%s" % (polls[pi], wouts[pi]))
-            pi += 1
+        elif t[0] == "X":
+            ops.append("X")
+        elif t[0] == "R" or t[0] == "Z":
+            k = 1
+            if t[0] == "Z":
+                if zi >= len(drains):
+                    return None
+                k = drains[zi]
+                zi += 1
+            for _ in range(k):
+                if pi >= len(polls):
+                    return None
+                ops.append("R%s,%s" % (polls[pi], wouts[pi]))
+                pi += 1
     if pi != len(polls):
         return None
     hdr = "0 0" if tcp else "1 " + c[0].strip()
@@ -622,7 +677,7 @@ def main():
     try:
         lib = vf.build_libuv(chk.scratch, "ndebug")
         hs = vf.cc_harness(chk.scratch, "c06_read", ["c06_read.c"], lib=lib,
-                           wraps=["read", "recvmsg", "epoll_pwait"])
+                           wraps=["read", "recvmsg", "epoll_pwait", "write", "writev", "sendmsg"])
         model = vf.model_bin("C06")
     except vf.BuildError as e:
         chk.violation("build failed: %s" % str(e)[:300], {"kind": "build", "log": str(e)}, found_input=False)
